@@ -825,6 +825,10 @@ impl Check {
 			if let Err(e) = std::fs::write(&path, serde_json::to_string_pretty(&evidence).unwrap()) {
 				eprintln!("cannot write evidence {path}: {e}");
 			}
+			// a copy per tier, so that a quick run does not wipe out the record of a thorough one
+			let dir = format!("{}/evidence-by-tier", out_dir());
+			let _ = std::fs::create_dir_all(&dir);
+			let _ = std::fs::write(format!("{dir}/{}.{}.json", self.id, match self.tier { Tier::Quick => "quick", Tier::Thorough => "thorough" }), serde_json::to_string_pretty(&evidence).unwrap());
 		}
 		crate::util::cleanup_tmp();
 		for (k, (t, n)) in known_hits.iter() {
